@@ -52,7 +52,7 @@ def budget(tier):
 
 def generate(tp: Tape, tier: str):
     thorough = tier == "thorough"
-    prog = G.generate_program(tp, max_steps=14 if thorough else 8, min_steps=3, max_extent=10,
+    prog = G.generate_program(tp, max_steps=10 if thorough else 8, min_steps=3, max_extent=10,
                               profile=tp.choice(["general", "elemwise", "reduce", "multi"]), allow_zero=False,
                               dtypes=["int64", "float64", "int32", "float32"], exclude_tags=("qr",),
                               exclude_ops=("take", "groupby"), max_outputs=1)
@@ -65,7 +65,7 @@ def generate(tp: Tape, tier: str):
         acc += n
         avail_after.append(acc)
     n_steps = len(prog["steps"])
-    n_actions = tp.randint(3, 30 if thorough else 10)
+    n_actions = tp.randint(3, 16 if thorough else 10)
     raw = tp.coin(1, 8)  # keep the raw "store an ancestor of an earlier-derived array" construct in a small fraction
     actions = []
     for _ in range(n_actions):
